@@ -308,7 +308,7 @@ func checkC02(cx *Ctx, r *Report) {
 	}
 	// a reply rendered through a pooled buffer must not carry a previous reply
 	cx.checkPoolEscape(r)
-	r.Min("R-VFG", 20)
+	r.Min("R-VFG", 10)
 }
 
 // requireBindingGuard: every path to the delivery call c has r.ProtocolBinding == want.
